@@ -55,9 +55,9 @@ def _session(case):
     # per session: what atom "x" is (a leap-second string whose quoting depends on the decoder's grammar; strings around half
     # the line width, where the ODL family switches quote style) and which non-default options the session's encoders get
     h = int(hashlib.blake2b(json.dumps([tree, script], sort_keys=True).encode(), digest_size=4).hexdigest(), 16)
-    xval = ["23:59:60", "a" * 39, "a" * 40, "a" * 41, "ab " * 13][h % 5]
-    opts = [{}, {"width": 60}, {"indent": 4}, {}][(h // 5) % 4]
-    pds_opts = [{}, {"symbol_single_quote": False}, {"convert_group_to_object": True, "tab_replace": 2}][(h // 20) % 3]
+    xval = ["23:59:60", "a" * 39, "a" * 40, "a" * 41, "ab " * 13, "20200101T120000", "12:00-01"][h % 7]
+    opts = [{}, {"width": 60}, {"indent": 4}, {}][(h // 7) % 4]
+    pds_opts = [{}, {"symbol_single_quote": False}, {"convert_group_to_object": True, "tab_replace": 2}][(h // 28) % 3]
     m = build(tree, dict(_G["classes"], __qcls__=qcls, __x__=xval))
     evs = []
     encs = {}
@@ -75,6 +75,13 @@ def _session(case):
                 pvl.dumps(_G["classes"]["PVLModule"](z=1))
             except Exception:
                 pass
+            try:                        # loading something, with the default and with freshly built grammars
+                import pvl.grammar as Gr
+                pvl.loads("a = 20200101T120000\nb = 23:59:60\nEND\n")
+                pvl.loads("a = 1\nEND\n", grammar=Gr.ODLGrammar())
+                Gr.OmniGrammar(), Gr.ISISGrammar(), Gr.PDSGrammar()
+            except Exception:
+                pass
             # ... the session's own encoders asked for other options once, and their decoders shared with other encoders
             for enc in list(encs.values()):
                 try:                    # a module this encoder refuses (a set the PDS3 encoder cannot write, a character no dialect has)
@@ -83,6 +90,11 @@ def _session(case):
                     pass
                 try:
                     pvl.dumps(_G["classes"]["PVLModule"]([("g", _G["classes"]["PVLGroup"](q="b" * 45))]), encoder=enc)
+                except Exception:
+                    pass
+                try:                    # a module of the new container classes (groups and objects of other classes)
+                    import pvl.new
+                    pvl.dumps(pvl.new.loads("GROUP = g\n a = 1\nEND_GROUP\nOBJECT = o\n b = 2\nEND_OBJECT\nEND\n"), encoder=enc)
                 except Exception:
                     pass
                 try:
